@@ -93,7 +93,7 @@ type pgen struct {
 	forceArm int
 }
 
-func newPgen(r *vlib.Rand) *pgen { return &pgen{r: r, budget: 30, forceArm: -1} }
+func newPgen(r *vlib.Rand) *pgen { return &pgen{r: r, budget: 12, forceArm: -1} }
 
 func (g *pgen) str() string {
 	var s string
@@ -370,7 +370,7 @@ func (g *pgen) fill(m protoreflect.Message, depth int) {
 		g.st.oneofArm++
 		chosen[oo.Fields().Get(arm).FullName()] = true
 	}
-	density := []float64{0.15, 0.5, 0.85}[g.r.Intn(3)]
+	density := []float64{0.08, 0.25, 0.6}[g.r.Intn(3)]
 	for i := 0; i < fds.Len(); i++ {
 		fd := fds.Get(i)
 		newMsg := func() protoreflect.Message { return m.NewField(fd).Message() }
